@@ -86,6 +86,29 @@ HAND_SEEDS = {
 2 0.6 0.5 110 0.4
 [End]
 """,
+    # pre-release calibration file that names its type
+    "h_legacy_typed.vnacal": b"""#VNACAL 2.0
+%YAML 1.1
+---
+sets:
+- name: cal
+  type: E12
+  rows: 1
+  columns: 1
+  frequencies: 2
+  z0: +5.0e+01 +0.0e+00j
+  data:
+  - f: 1.0e+09
+    e:
+    - - - +1.0e-02 -2.0e-02j
+        - +9.9e-01 +1.0e-02j
+        - +3.0e-02 +1.0e-02j
+  - f: 2.0e+09
+    e:
+    - - - +2.0e-02 -1.0e-02j
+        - +9.8e-01 +2.0e-02j
+        - +1.0e-02 +3.0e-02j
+""",
     "h_yaml_1.yaml": b"""a: 1
 b: [1, 2, {c: d}]
 e:
@@ -153,7 +176,9 @@ def splice(data, other, rng):
 
 def mutate(data, rng):
     """one structure-aware mutation (may be composed)"""
-    n = int(rng.integers(0, 21))
+    n = int(rng.integers(0, 23))
+    if data[:4].upper() == b"#VNA" and rng.random() < 0.2:
+        n = 21 + int(rng.integers(0, 2))   # calibration files: key / value edits
     if not data:
         return bytes(rng.integers(0, 256, int(rng.integers(0, 20)), dtype=np.uint8))
     if n == 0:      # truncate
@@ -195,6 +220,34 @@ def mutate(data, rng):
         else:
             b_ = int(rng.integers(0, len(lines)))
             lines[a], lines[b_] = lines[b_], lines[a]
+        return b"\n".join(lines)
+    elif n in (21, 22):   # "key: value" line inserted / value replaced
+        lines = data.split(b"\n")
+        cand = [k for k, ln in enumerate(lines)
+                if re.match(rb"^\s*(- )?[A-Za-z_]+:( |$)", ln)]
+        if not cand:
+            return data
+        k = cand[int(rng.integers(0, len(cand)))]
+        ind = re.match(rb"^(\s*)(- )?", lines[k])
+        indent = ind.group(1) + (b"  " if ind.group(2) else b"")
+        keys = [kw for kw in KEYWORDS if kw.endswith(b":") and
+                not kw.startswith(b"#")]
+        vals = [b"T8", b"U8", b"TE10", b"UE10", b"T16", b"U16", b"UE14",
+                b"E12", b"0", b"1", b"2", b"3", b"-1", b"1e9", b"x",
+                b"+5.0e+01 +0.0e+00j", b"[1, 2]", b"{a: b}", b"~", b""]
+        val = bytes(vals[int(rng.integers(0, len(vals)))])
+        if n == 22 and lines[k].split(b":", 1)[0].strip(b" -") == b"type" \
+                and rng.random() < 0.7:
+            val = bytes(vals[int(rng.integers(0, 8))])     # another type name
+        if n == 21:
+            key = bytes(keys[int(rng.integers(0, len(keys)))])
+            if rng.random() < 0.3:
+                key, val = b"type:", bytes(vals[int(rng.integers(0, 8))])
+            lines.insert(k + int(rng.integers(0, 2)),
+                         indent + key + b" " + val)
+        else:
+            head = lines[k].split(b":", 1)[0]
+            lines[k] = head + b": " + val
         return b"\n".join(lines)
     elif n == 20:   # delete a block of consecutive lines (a whole section)
         lines = data.split(b"\n")
